@@ -16,7 +16,7 @@ ID = "C13"
 DRIVER = "zonefile"
 COQ_TARGETS = ["Properties/C13.vo"]
 THEOREMS = ["C13_escape_roundtrip", "C13_escape_roundtrip_entry", "C13_serialise_octets_ascii",
-            "C13_relative_name_roundtrip", "C13_zone_roundtrip", "C13_own_order_admissible", "C13_regroup_admissible",
+            "C13_relative_name_roundtrip", "C13_zone_roundtrip", "C13_built_closed", "C13_own_order_admissible", "C13_regroup_admissible",
             "C13_normalise_idempotent", "C13_loaded_built", "C13_loaded_roundtrip", "C13_codec_instance",
             "C13_zone_roundtrip_zf", "C13_ztoz_twice_zf"]
 RULE = ("cases: zones obtained by parsing generated zone-file text (labels over all ASCII octets except '.', incl. @ ; ( ) \" \\ "
